@@ -2,13 +2,13 @@ SPECIFICATION SpecMC
 CONSTANTS
   Libs = {"A", "B", "C"}
   NT = 2
-  Statuses = {"absent", "fwd", "fwdg", "def", "defg"}
+  Statuses = {"absent", "fwd", "defg"}
   Statuses2 = {"absent", "defg"}
   Modes = {"db", "mod"}
   LookupKinds = {"tn", "tsn", "ttn", "mn", "en", "esn"}
   FileBase = 3
   RecordHist = TRUE
-  Faults = {"ok"}
+  Faults = {"ok", "missing", "stale"}
   DumpKinds = {"C", "P", "B"}
 INVARIANT TypeOK
 INVARIANT FilesWellFormed
